@@ -1,17 +1,19 @@
 import LettreVerif.Proofs.Headers
 import LettreVerif.Model.Builder
 import LettreVerif.Model.Date
+import LettreVerif.Proofs.Date
 /-!
 # C17 — Mailboxes and typed headers read back equal to what was stored
 
 Proved here: the header map part (lookup, replacement and removal are case-insensitive, one
-entry per name) and small facts about typed values.  Full statements that are *not* proved
-and are tied by the correspondence check only (the model's `show`, the PEG transcription of the
-grammar and the civil-date arithmetic are each compared with the code, and the property itself —
-display then parse gives an equal value — is evaluated on every generated value):
+entry per name), the Date arithmetic round trip for every instant (`date_roundtrip`: the civil
+fields the header shows are mapped back to the same second; the calendar fields are in range and
+the weekday is the right one), and small facts about typed values.  A full statement that is
+*not* proved and is tied by the correspondence check only (the model's `show` and the PEG
+transcription of the grammar are each compared with the code, and the property itself — display
+then parse gives an equal value — is evaluated on every generated value):
 
     theorem mailbox_roundtrip (m : MBox) : parse1 e (show1 m) = some ⟨normName m.name, m.email⟩
-    theorem date_roundtrip (t : Nat) (h : t < 253402300800) : Date.toSecs (Date.civil t) = t
 -/
 namespace LV.C17
 open LV LV.Headers
@@ -74,6 +76,22 @@ theorem date_time_of_day (t : Nat) :
     (Date.civil t).sec = t % 86400 % 60 ∧ (Date.civil t).min = t % 86400 % 3600 / 60 ∧
     (Date.civil t).hour = t % 86400 / 3600 := by
   simp [Date.civil]
+
+/-- **Date round trip, every instant**: the civil fields computed for `t` seconds after 1970-01-01T00:00:00Z
+    (`HttpDate::from(SystemTime)`, what the header prints) are mapped back to exactly `t`
+    (`SystemTime::from(HttpDate)`, what `Headers::get::<Date>()` returns after parsing).  No bound on `t`:
+    the 400-year cycle argument covers every year, not only 1970..9999. -/
+theorem date_roundtrip (t : Nat) : Date.toSecs (Date.civil t) = t := DateProof.toSecs_civil t
+
+/-- distinct instants never print the same civil fields -/
+theorem date_injective (t u : Nat) (h : Date.civil t = Date.civil u) : t = u := by
+  rw [← date_roundtrip t, ← date_roundtrip u, h]
+
+/-- the printed fields are a calendar date: month 1..12, day 1..31, and the weekday is the day number's
+    (1970-01-01 was a Thursday; 1 = Monday … 7 = Sunday) -/
+theorem date_fields_in_range (t : Nat) :
+    1 ≤ (Date.civil t).mon ∧ (Date.civil t).mon ≤ 12 ∧ 1 ≤ (Date.civil t).day ∧ (Date.civil t).day ≤ 31 ∧
+    (Date.civil t).wday = (t / 86400 + 3) % 7 + 1 := DateProof.civil_fields t
 
 /-- non-vacuity / regression: a few instants through the date model, incl. a leap day and the
     last representable second. -/
